@@ -166,7 +166,7 @@ def run(chk):
     ents = corpus.entries()
     idx = list(range(len(ents)))
     chk.rng("corpus").shuffle(idx)
-    ncorp = chk.pick(150, len(ents))
+    ncorp = len(ents)
     ngen = chk.pick(80, 600)
     cases = [("corpus", i) for i in idx[:ncorp]] + [("gen", i) for i in range(ngen)]
     chk.map(lambda c: one(chk, c), cases, budget_s=chk.pick(400, 2400))
